@@ -95,11 +95,6 @@ Proof.
   unfold owned. intros H. apply orb_false_iff in H. destruct H as [H ?]. apply orb_false_iff in H. tauto.
 Qed.
 
-(* the GraphNew calls covered by the theorems: the constructor without arguments (inputs, outputs, initializers
-   and nodes are then added with the tracked mutators).  GraphNew with arguments is covered by the tie only. *)
-Definition in_scope (o : op) : bool :=
-  match o with GraphNew _ [] [] [] [] => true | GraphNew _ _ _ _ _ => false | _ => true end.
-
 Lemma prod_po_adopt n vs : forall i s v, ~ In v vs -> prod (po_adopt s n i vs) v = prod s v.
 Proof.
   induction vs as [|w t IH]; intros i s v Hn; simpl; [reflexivity|].
@@ -115,9 +110,9 @@ Qed.
 Ltac chainR := repeat match goal with
   | |- context [if ?b then R ?h ?e else _] => let E := fresh "E" in destruct b eqn:E; [assumption|] end.
 
-Theorem D_step h o : in_scope o = true -> D_ok h -> D_ok (fst (step all_fixed h o)).
+Theorem D_step h o : D_ok h -> D_ok (fst (step all_fixed h o)).
 Proof.
-  intros Hsc HD. destruct o; cbn [step]; try assumption.
+  intros HD. destruct o; cbn [step]; try assumption.
   - (* NewValue *)
     unfold new_value. destruct (blank_value h v) eqn:E; [|assumption]. cbn [fst K].
     destruct (blank_unowned _ _ E) as [Ho _]. destruct (owned_false_flags _ _ Ho) as [_ Hi].
@@ -143,17 +138,18 @@ Proof.
                                   | OGiven _ _ => with_nm h1 (nm_bump_n (nm_set_nname (hnm h1) n nm) n) end).
     { destruct o; (eapply D_ok_same; [| |exact HD1]; reflexivity). }
     destruct g as [g|]; [apply D_g_append|]; exact HD3.
-  - (* GraphNew without arguments *)
-    destruct gi; [|discriminate]. destruct go; [|discriminate]. destruct ginit; [|discriminate]. destruct ns; [|discriminate].
-    unfold graph_new. destruct (negb (blank_graph h g)) eqn:Eb; [assumption|]. cbn. 
-    apply negb_false_iff in Eb. unfold blank_graph in Eb.
-    destruct (iol KIn (how h) g) eqn:Ei; [|discriminate]. destruct (iol KOut (how h) g) eqn:Eo; [|discriminate].
-    destruct (inits (how h) g) eqn:Ein; [|discriminate].
-    unfold D_ok, hp. simpl.
-    change (nth g (g_inits (how h)) dflt) with (inits (how h) g). rewrite Ein. simpl.
-    change (InvD (hp h) (set_iol KOut (set_iol KIn (how h) g []) g [])).
-    apply InvD_perm; [apply InvD_perm; [exact HD|rewrite Ei; reflexivity]|].
-    intros x. autorewrite with rd. cbn [kind_eqb andb]. rewrite Eo. reflexivity.
+  - (* GraphNew: rejected up front, or built with the validated mutators *)
+    unfold graph_new. destruct (negb (blank_graph h g)); [assumption|]. cbn [all_fixed].
+    destruct (graph_new_reject _ _ _ _ _); [assumption|]. cbn [fst K]. unfold graph_init.
+    match goal with |- D_ok (with_nm ?h4 _) => apply (D_ok_same h4); [reflexivity|reflexivity|] end.
+    apply D_g_extend. apply D_reg_values. apply D_reg_values.
+    unfold D_ok, hp. cbn [hpo how with_ow]. fold (hp h).
+    generalize (dict_of (how h) ginit []). intros d.
+    assert (H2 : InvD (hp h) (fst (io_extend all_fixed KOut (fst (io_extend all_fixed KIn (how h) (hp h) g gi)) (hp h) g go))).
+    { apply InvD_io_extend. apply InvD_io_extend. exact HD. }
+    revert H2. generalize (fst (io_extend all_fixed KOut (fst (io_extend all_fixed KIn (how h) (hp h) g gi)) (hp h) g go)).
+    induction d as [|[k v] t IH]; intros s Hs; simpl; [exact Hs|].
+    apply IH. destruct k as [k|]; [apply InvD_init_setitem|]; exact Hs.
   - apply D_g_append. assumption.
   - apply D_g_extend. assumption.
   - apply D_g_insert. assumption.
@@ -161,6 +157,9 @@ Proof.
   - destruct (ngraph (hng h) n); [apply D_g_insert|]; assumption.
   - destruct (ngraph (hng h) n); [apply D_g_insert|]; assumption.
   - unfold g_remove. destruct (forallb _ _); [|assumption]. cbn [fst K]. apply D_remove_fold. assumption.
+  - (* GSort *)
+    unfold g_sort. destruct out as [orders|]; [|assumption]. destruct (sort_valid h orders); [|assumption]. cbn [fst K].
+    revert h HD. induction orders as [|go t IH]; intros h HD; simpl; [assumption|]. apply IH. apply D_g_extend. assumption.
   - unfold n_replace_input. destruct (_ || _)%bool; [assumption|]. eapply D_ok_same; [| |exact HD]; reflexivity.
   - unfold n_resize_inputs. destruct (_ =? _)%Z; [assumption|]. destruct (_ <? _)%Z; [assumption|].
     destruct (_ <? _); (eapply D_ok_same; [| |exact HD]; reflexivity).
@@ -204,6 +203,9 @@ Proof.
   - exact (InvD_init_delitem (hp h) (how h) g key HD).
   - exact (InvD_init_add (hp h) (how h) g v HD).
   - exact (InvD_init_clear (hp h) (how h) g HD).
+  - exact (InvD_init_popitem (hp h) (how h) g HD).
+  - exact (InvD_init_update (hp h) (how h) g kvs HD).
+  - exact (InvD_init_setdefault (hp h) (how h) g key v HD).
 Qed.
 
 (* ------------------------------------------------------------------ the invariant and its preservation *)
@@ -234,17 +236,14 @@ Qed.
 Lemma Inv_empty : Inv empty_heap.
 Proof. split; [apply I1_empty|]. split; [apply I3_empty|apply D_ok_empty]. Qed.
 
-Theorem Inv_step h o : in_scope o = true -> Inv h -> Inv (fst (step all_fixed h o)).
+Theorem Inv_step h o : Inv h -> Inv (fst (step all_fixed h o)).
 Proof.
-  intros Hsc (H1 & H3 & HD). split; [apply I1_step; assumption|]. split; [apply I3_step; assumption|].
+  intros (H1 & H3 & HD). split; [apply I1_step; assumption|]. split; [apply I3_step; assumption|].
   apply D_step; assumption.
 Qed.
 
-Theorem Inv_run_fixed ops : forall h, forallb in_scope ops = true -> Inv h -> Inv (run all_fixed ops h).
-Proof.
-  induction ops as [|o t IH]; intros h Hsc HI; simpl; [assumption|]. simpl in Hsc. apply andb_prop in Hsc.
-  apply IH; [tauto|]. apply Inv_step; tauto.
-Qed.
+Theorem Inv_run_fixed ops : forall h, Inv h -> Inv (run all_fixed ops h).
+Proof. induction ops as [|o t IH]; intros h HI; simpl; [assumption|]. apply IH. apply Inv_step. assumption. Qed.
 
 (* a history of the model under configuration c that never takes a branch on which c differs from the
    repaired model, i.e. that never hits an unrepaired defect site *)
@@ -263,8 +262,8 @@ Qed.
 Lemma clean_all_fixed ops : forall h, clean all_fixed ops h.
 Proof. induction ops as [|o t IH]; intros h; simpl; auto. Qed.
 
-Theorem Inv_run_clean c ops : forallb in_scope ops = true -> clean c ops empty_heap -> Inv (run c ops empty_heap).
-Proof. intros Hsc Hc. rewrite clean_run by assumption. apply Inv_run_fixed; [assumption|apply Inv_empty]. Qed.
+Theorem Inv_run_clean c ops : clean c ops empty_heap -> Inv (run c ops empty_heap).
+Proof. intros Hc. rewrite clean_run by assumption. apply Inv_run_fixed. apply Inv_empty. Qed.
 
 (* ------------------------------------------------------------------ the invariant in the words of the property *)
 Definition InvP (h : heap) : Prop :=
